@@ -1046,6 +1046,14 @@ class World:
             j = self.idx[x]
             lo_t, hi_t = tt.cof(reg, self.n, j, 0), tt.cof(reg, self.n, j, 1)
             require(f.negated == (u < 0), 'traverse.negated')
+            require(self.A.var_at_level(f.level) == x and
+                    f.level == self.order.index(x),
+                    'traverse.var_not_at_level',
+                    dict(var=x, level=f.level))
+            require(x in f.support and int(f) == u and
+                    len(f) == f.dag_size ==
+                    len(reachable(self.b, [abs(u)])),
+                    'traverse.views')
             which %= 3
             if which == 0:
                 self.hold(f.low, lo_t, 1)
@@ -1061,6 +1069,37 @@ class World:
             j = self.idx[self.order[lvl]]
             self.hold(lo, tt.cof(reg, self.n, j, 0), 1)
             self.hold(hi, tt.cof(reg, self.n, j, 1), 1)
+
+    def op_views(self, mask):
+        """Structural views (descendants, sizes, networkx and DOT
+        exports, Function traversal) of some held references: the
+        checker of C18, in the middle of a history."""
+        if not self.held:
+            return
+        from .props import c18
+        import os
+        m = len(self.held)
+        es = [self.held[(mask >> (4 * i)) % m]
+              for i in range(1 + (mask >> 14) % 3)]
+        refs = {e.t: self.node(e.ref) for e in es}
+        roots_t = sorted(refs)      # each root once
+        if self.kind == 'autoref':
+            A = self.A
+        else:
+            A = getattr(self, '_viewer', None)
+            if A is None or A._bdd is not self.b:
+                import dd.autoref as _ar
+                A = _ar.BDD()
+                A._bdd = self.b
+                self._viewer = A
+            A.vars = self.b.vars
+        with self.quiet():
+            c18.check_views(self.b, A, self.U, self.n, roots_t, refs,
+                            os.getcwd(), 'hv')
+        require(len(self.b) == len(self.b._succ) == len(A),
+                'len_bdd.wrong')
+        self.label('views')
+        self.nontrivial.add('views')
 
     # collections -----------------------------------------------------
     def op_gc(self, rc=1):
